@@ -224,10 +224,10 @@ def _check_reader(case):
         # ---- chunked ----
         sizes = [len(ch) for ch in chunks]
         exp_sizes = [case["chunk"]] * (n // case["chunk"]) + ([n % case["chunk"]] if n % case["chunk"] else [])
-        if n > 0:
-            require(sizes == exp_sizes, "chunk-sizes", f"chunk sizes {sizes} != {exp_sizes} (n={n}, chunk={case['chunk']})")
-        else:
-            require(sum(sizes) == 0, "chunk-sizes", f"{sizes} for an empty table")
+        # the property asks for chunk-concat = whole; a reader may deliver shorter chunks (e.g. at row-group boundaries),
+        # but not more rows than requested per chunk and not another total
+        require(sum(sizes) == n, "row-count", f"chunks hold {sum(sizes)} rows in total ({sizes}) for a table of {n} (chunk={case['chunk']})")
+        require(all(sz <= case["chunk"] for sz in sizes), "chunk-too-large", f"chunk sizes {sizes} exceed the requested {case['chunk']}")
         pos = 0
         for k, ch in enumerate(chunks):
             require(list(ch.columns) == want_cols, "column-order", f"chunk {k}: columns {list(ch.columns)} != requested {want_cols}")
